@@ -44,6 +44,58 @@ def member_map_ref(ctx, data, password=None):
         return ("err", "%s: %s" % (type(e).__name__, str(e)[:150]))
 
 
+def packed_area(data):
+    """(start, end) of the packed streams of the MAIN header as py7zr reads it, or None"""
+    try:
+        with py7zr.SevenZipFile(io.BytesIO(data), "r") as z:
+            ms = z.header.main_streams
+            if ms is None or ms.packinfo is None:
+                return None
+            a = z.afterheader + ms.packinfo.packpos
+            return (a, a + sum(ms.packinfo.packsizes)), list(z.getnames())
+    except Exception:  # noqa
+        return None
+
+
+def raw_only_case(ctx, rep, rng, idx):
+    """bases whose members py7zr cannot decode (BCJ2 ...): appending must still leave every old packed byte and every
+    old name in place"""
+    fx = [p for p in sorted(glob.glob(os.path.join(os.environ.get("VERIF_REPO", "/repo"), "tests", "data", "*.7z")))
+          if os.path.basename(p) in ("lzma_bcj2_1.7z", "lzma2bcj2.7z", "lzma2bcj2_2.7z", "test_lzma2bcj2.7z", "mblock_1.7z", "solid.7z")]
+    path = fx[idx % len(fx)]
+    data = open(path, "rb").read()
+    pa = packed_area(data)
+    if pa is None:
+        return
+    (a, b), names = pa
+    bio = io.BytesIO(data)
+    tmp = tempfile.mkdtemp(prefix="c08r_")
+    try:
+        sess = [("writestr", "zz_new_%d" % idx, arch.pattern_bytes(rng, rng.choice([1, 17, 3000]), "random"))]
+        try:
+            apply_session(bio, "a", sess, rng.choice(arch.FAST_CHAINS), None, "encoded", tmp)
+        except Exception as e:  # noqa
+            rep.violation("append session raises %s: %s [base %s]" % (type(e).__name__, e, os.path.basename(path)),
+                          {"kind": "append-raises", "base": os.path.basename(path)},
+                          match_keys={"kind": "append-raises", "base": "fixture-raw", "exc": type(e).__name__})
+            return
+        new = bio.getvalue()
+        rep.count(("c08raw", os.path.basename(path), idx))
+        rep.dist("raw_preservation_base", os.path.basename(path))
+        if new[a:b] != data[a:b]:
+            first = next(i for i in range(a, b) if new[i] != data[i])
+            rep.violation("append overwrote packed data of existing members at offset %d (packed area %d..%d) [base %s]" % (
+                first, a, b, os.path.basename(path)), {"kind": "packed-overwritten", "base": os.path.basename(path)},
+                match_keys={"kind": "packed-overwritten"})
+            return
+        pb = packed_area(new)
+        if pb is None or pb[1][: len(names)] != names or pb[0][0] != a or pb[0][1] < b:
+            rep.violation("after an append the old names/packed area are not described any more [base %s]" % os.path.basename(path),
+                          {"kind": "history-broken-raw", "base": os.path.basename(path)}, match_keys={"kind": "history-broken-raw"})
+    finally:
+        shutil.rmtree(tmp, ignore_errors=True)
+
+
 def gen_session(rng, used, allow_empty=True):
     """a list of (how, name, bytes) for one session; how in writestr / writef / write / dir"""
     n = rng.choice([0, 1, 1, 2, 3]) if allow_empty else rng.choice([1, 2, 3])
@@ -220,6 +272,8 @@ def run(ctx):
         history_case(ctx, rep, rng, i)
         if len(rep.violations) > 25:
             break
+    for i in range(12 if tier == "quick" else 120):
+        raw_only_case(ctx, rep, rng, i)
 
 
 def replay(d):
